@@ -6,3 +6,6 @@
 mod compressed;
 
 pub(super) use compressed::*;
+
+#[cfg(feature = "verif_hooks")]
+pub(crate) use compressed::verif_hooks;
